@@ -518,7 +518,14 @@ func (s *Store) pushFile(target string, expected ocispec.Descriptor, content io.
 		return fmt.Errorf("failed to create file %s: %w", target, err)
 	}
 
-	return s.saveFile(fp, expected, content)
+	if err := s.saveFile(fp, expected, content); err != nil {
+		// do not leave the partially written file behind: it is not part of the
+		// store, and it would block a later push of the same name when
+		// DisableOverwrite is set.
+		os.Remove(target)
+		return err
+	}
+	return nil
 }
 
 // pushDir saves content matching the descriptor to the target directory.
